@@ -1,7 +1,7 @@
 #!/bin/bash
 # usage: selftest/confirm_seed.sh <Cxx> <mK>   confirm an agent-produced mutant in a scratch worktree and store it under /verif/seeded
 P=$1; K=$2
-SRC=/tmp/seed/$P/out/$K
+SRC=${SRC:-/tmp/seed/$P/out/$K}
 WT=$(mktemp -d /tmp/confirm.XXXXXX)
 git -C /repo worktree add -q --detach "$WT/wt" HEAD || exit 9
 cd "$WT/wt"
